@@ -37,7 +37,7 @@ func c04Witnesses(rec *ev.Rec) {
 		v := variants.Get("vtu")
 		m := witnessTree(v, func(f *model.FieldInfo) bool { return f.Kind == model.FUList })
 		if m == nil {
-			return false, ""
+			return noWitnessTree()
 		}
 		orig := model.Build(m)
 		cp, err := ygot.DeepCopy(orig)
@@ -61,7 +61,7 @@ func c04Witnesses(rec *ev.Rec) {
 			return f.Kind == model.FLeafList && !f.ElemUnion && f.Type.VKind() == model.KBin
 		})
 		if m == nil {
-			return false, ""
+			return noWitnessTree()
 		}
 		orig := model.Build(m)
 		cp, err := ygot.DeepCopy(orig)
@@ -85,7 +85,7 @@ func c04Witnesses(rec *ev.Rec) {
 				return f.Kind == model.FLeafList && f.ElemUnion && hasBinaryMember(f.Type)
 			})
 			if m == nil {
-				continue
+				return noWitnessTree()
 			}
 			orig := model.Build(m)
 			cp, err := ygot.DeepCopy(orig)
@@ -107,7 +107,7 @@ func c04Witnesses(rec *ev.Rec) {
 		v := variants.Get("vtw")
 		m := witnessTree(v, func(f *model.FieldInfo) bool { return f.Kind == model.FList && keyHasWrapperUnion(f) })
 		if m == nil {
-			return false, ""
+			return noWitnessTree()
 		}
 		orig := model.Build(m)
 		cp, err := ygot.DeepCopy(orig)
@@ -130,7 +130,7 @@ func c04Witnesses(rec *ev.Rec) {
 			return f.Kind == model.FLeaf && !f.ElemUnion && f.Type.VKind() == model.KBin && model.LenOK(f.Type.Length, 0)
 		}, model.Val{K: model.KBin, B: []byte{}})
 		if m == nil {
-			return false, ""
+			return noWitnessTree()
 		}
 		cp, err := ygot.DeepCopy(model.Build(m))
 		if err != nil {
@@ -313,6 +313,7 @@ func TestC04_DeepCopy(t *testing.T) {
 	rec := ev.Start(t, "C04")
 	rec.Rule(c04Rule)
 	c04Witnesses(rec)
+	checkWitnesses(t)
 	cnt := newCounter()
 	rapid.Check(t, func(rt *rapid.T) {
 		v := th.PickVariant(rt, c04Variants...)
@@ -381,6 +382,7 @@ func TestC04_Merge(t *testing.T) {
 	rec := ev.Start(t, "C04")
 	rec.Rule(c04Rule)
 	c04Witnesses(rec)
+	checkWitnesses(t)
 	cnt := newCounter()
 	rapid.Check(t, func(rt *rapid.T) {
 		v := th.PickVariant(rt, c04Variants...)
@@ -492,6 +494,8 @@ func simpleValK(lt *model.LType, i int, key bool) (model.Val, bool) {
 		return model.Val{K: k, U: uint64(1 + i)}, true
 	case k.Signed() && len(lt.Range) == 0:
 		return model.Val{K: k, I: int64(1 + i)}, true
+	case k == model.KEnum && len(lt.Enum) > i && lt.GoEnum != nil:
+		return model.EnumVal(lt, lt.Enum[i]), true
 	case k == model.KBool && !key:
 		return model.Val{K: model.KBool, Bool: true}, true
 	}
